@@ -1,0 +1,4 @@
+//! Verification hooks (cargo feature `verif`, off by default, add-only).
+//! Re-exports of crate-private items so that an external harness can run them in isolation.
+
+pub use super::debugee::dwarf::VerifPathSearchIndex as PathSearchIndex;
